@@ -677,6 +677,29 @@ def rule_map_discovery(c, R, F, inline_value):
     c.floor(R, "marker tests", len(receivers), 3)
 
 
+def status_cmp(F, e):
+    """(member chain of the compared expression, string) for `<x>.status === <string>`: the string may be a
+    literal, a module constant, or - inside a local helper that Reach has opened - a parameter standing for
+    one of these at the call under consideration (JF.REN)"""
+    e = JF.unparen(e)
+    if e.get("type") != "BinaryExpression" or e.get("operator") not in ("===", "=="):
+        return None
+    for a, b in ((e["left"], e["right"]), (e["right"], e["left"])):
+        okc, v = F.const_value(b)
+        if not okc and JF.unparen(b).get("type") == "Identifier":
+            t_ = JF.REN[0].get(JF.unparen(b)["value"])
+            if t_ is not None:
+                if t_ in F.consts:
+                    okc, v = True, F.consts[t_]
+                elif len(t_) > 1 and t_[0] in "'\"" and t_[-1] == t_[0]:
+                    okc, v = True, t_[1:-1]
+        if okc and isinstance(v, str):
+            ch = [x for x in JF.text(a).replace("?.", ".").split(".") if x]
+            if ch and ch[-1] == "status":
+                return ch, v
+    return None
+
+
 def _is_dirname_helper(F, name):
     """a local one-parameter function that gives the directory part of a file name: `path.dirname(p)`, or
     `p.split(path.sep)` with the last segment popped and the rest joined by `path.sep` again"""
@@ -984,13 +1007,15 @@ def rule_stack(c, R, F):
     # eval frames: the groups of the eval origin feed file, line, column in this order
     for lk in looks:
         top = F.enclosing_fn(lk)
-        names = [jsast.ident_name(a) for a in args(lk)]
+        # positions are named by their text: a plain local (`filename`) or a field of a location object
+        # (`generated.path`)
+        names = [jsast.ident_name(a) or JF.text(a) for a in args(lk)]
         groups = {}
         for n in jsast.walk(jf.program):
             src = None
             tgt = None
             if n.get("type") == "AssignmentExpression":
-                src, tgt = JF.unparen(n["right"]), jsast.ident_name(n["left"])
+                src, tgt = JF.unparen(n["right"]), (jsast.ident_name(n["left"]) or JF.text(n["left"]))
             if n.get("type") == "KeyValueProperty" and n["key"].get("type") == "Identifier":
                 src, tgt = JF.unparen(n["value"]), n["key"]["value"]
             if src is not None and src.get("type") == "MemberExpression" and src["property"].get("type") == "Computed" and jsast.ident_name(src["object"]) in data_names:
@@ -1001,12 +1026,47 @@ def rule_stack(c, R, F):
             c.expect(vals == [1, 2, 3], R, R + "/eval-groups", jf.loc(lk), "eval origin groups 1,2,3 used", "eval origin groups used are %s" % vals)
             # group k feeds the k-th argument of the lookup (directly, or through an object with file/line/column keys)
             direct = [k for k, _ in order]
-            pos_ok = direct == names or [("file" in direct[0].lower()), ("line" in direct[1].lower()), ("col" in direct[2].lower())] == [True, True, True]
+            low = [str(d_ or "").lower() for d_ in direct]
+            pos_ok = direct == names or (len(low) == 3 and [("file" in low[0] or "path" in low[0]), ("line" in low[1]), ("col" in low[2])] == [True, True, True])
             c.expect(pos_ok, R, R + "/eval-group-order", jf.loc(lk), "file, line, column <- groups 1, 2, 3", "eval origin groups feed %s but the lookup takes %s" % (direct, names))
         # the replacement: only a necessary condition - whenever something changed the text is replaced
-        reps = [n for n in jsast.walk(top) if n.get("type") == "CallExpression" and chain(n)[-1:] == ["replace"] and len(args(n)) == 2 and all(a.get("type") == "TemplateLiteral" for a in args(n))]
+        def as_template(a):
+            """(expressions as texts, quasis) of a template literal, or of a call of a local formatter
+            `f({path, line, column}) => `${path}:${line}:${column}`` applied to a location object"""
+            a = JF.unparen(a)
+            if a.get("type") == "TemplateLiteral":
+                return [jsast.ident_name(JF.unparen(x)) or JF.text(x) for x in a.get("expressions", [])], [q.get("raw") for q in a.get("quasis", [])]
+            if a.get("type") == "CallExpression" and len(chain(a)) == 1 and chain(a)[0] in F.decls and len(args(a)) == 1:
+                h_ = F.decls[chain(a)[0]]
+                prm = (h_.get("function", h_).get("params") or [None])[0]
+                pat = (prm or {}).get("pat", prm) or {}
+                rs_ = [x for x in jsast.walk(h_) if x.get("type") == "ReturnStatement" and F.enclosing_fn(x) is h_]
+                tl = JF.unparen(rs_[0]["argument"]) if len(rs_) == 1 and rs_[0].get("argument") is not None else {}
+                if tl.get("type") == "TemplateLiteral":
+                    base = JF.text(args(a)[0])
+                    ren = {}
+                    if pat.get("type") == "ObjectPattern":
+                        for pp in pat["properties"]:
+                            if pp.get("type") == "AssignmentPatternProperty":
+                                ren[pp["key"]["value"]] = "%s.%s" % (base, pp["key"]["value"])
+                            elif pp.get("type") == "KeyValuePatternProperty" and jsast.ident_name(pp["value"]):
+                                ren[jsast.ident_name(pp["value"])] = "%s.%s" % (base, pp["key"].get("value"))
+                    elif jsast.param_name(prm):
+                        ren[jsast.param_name(prm)] = base
+                    old_ = JF.REN[0]
+                    JF.REN[0] = dict(old_, **ren)
+                    try:
+                        return [JF.text(x) for x in tl.get("expressions", [])], [q.get("raw") for q in tl.get("quasis", [])]
+                    finally:
+                        JF.REN[0] = old_
+            return None
+
+        reps = [n for n in jsast.walk(top) if n.get("type") == "CallExpression" and chain(n)[-1:] == ["replace"] and len(args(n)) == 2 and all(as_template(a) is not None for a in args(n))]
         res = {}
         par = F.parent(lk)
+        if par.get("type") == "VariableDeclarator" and par["id"].get("type") == "Identifier":
+            # the looked-up position kept as one object: its fields are read where they are used
+            res = {k_: "%s.%s" % (par["id"]["value"], k_) for k_ in ("path", "line", "column")}
         if par.get("type") == "VariableDeclarator" and par["id"].get("type") == "ObjectPattern":
             for p in par["id"]["properties"]:
                 if p.get("type") == "AssignmentPatternProperty":
@@ -1015,10 +1075,8 @@ def rule_stack(c, R, F):
                     res[p["key"].get("value")] = jsast.ident_name(p["value"])
         c.floor(R, "replacements of the position text", len(reps), 1)
         for rp in reps:
-            frm = [jsast.ident_name(JF.unparen(x)) for x in args(rp)[0].get("expressions", [])]
-            to = [jsast.ident_name(JF.unparen(x)) for x in args(rp)[1].get("expressions", [])]
-            q1 = [q.get("raw") for q in args(rp)[0].get("quasis", [])]
-            q2 = [q.get("raw") for q in args(rp)[1].get("quasis", [])]
+            frm, q1 = as_template(args(rp)[0])
+            to, q2 = as_template(args(rp)[1])
             okt = frm == names and to == [res.get("path"), res.get("line"), res.get("column")] and q1 == ["", ":", ":", ""] and q2 == q1
             c.expect(okt, R, R + "/replace-text", jf.loc(rp), "`file:line:column` of the rewritten position -> `path:line:column` of the original", "the replaced text is %s -> %s (lookup %s -> %s)" % (frm, to, names, res))
             if okt:
@@ -1067,11 +1125,9 @@ def rule_cache_sync(c, R, main, updaters, imported):
     MOD = BF.atom("status-is-modified")
 
     def atomize(e, top):
-        if e.get("type") == "BinaryExpression" and e["operator"] in ("===", "=="):
-            for a, b in ((e["left"], e["right"]), (e["right"], e["left"])):
-                okc, v = F.const_value(b)
-                if okc and isinstance(v, str) and (jsast.opt_member_chain(JF.unparen(a)) or [""])[-1] == "status":
-                    return MOD if v == "modified" else BF.atom("status-is-" + v)
+        sc_ = status_cmp(F, e)
+        if sc_ is not None:
+            return MOD if sc_[1] == "modified" else BF.atom("status-is-" + sc_[1])
         return None
 
     reach = Reach(F, atomize, stop=[m])
